@@ -207,10 +207,13 @@ def gen():
         st.tuples(st.just("drop_rebuild_subset"), st.integers(0, 60), st.booleans()),
     ).map(list)
     return st.fixed_dictionaries({"spec": gg.spec_strategy(min_nodes=3, max_nodes=10, allow_groups=True, allow_own_key=True), "build_copy": st.booleans(),
-                                  "roots_only": st.booleans(), "ops": st.lists(op, min_size=1, max_size=12)})
+                                  "roots_only": st.booleans(), "ops": st.lists(op, min_size=1, max_size=12),
+                                  "entry": st.sampled_from(["builder", "builder", "model"])})
 
 
-def rebuild(nodes, vars_):
+def rebuild(nodes, vars_, entry="builder"):
+    if entry == "model":
+        return lsl.Model([*nodes.values(), *vars_.values()])        # the documented shortcut: Model(...) grows the graph itself
     return lsl.GraphBuilder().add(*nodes.values(), *vars_.values()).build_model()
 
 
@@ -232,6 +235,10 @@ def oracle(case):
         m = gb.build_model()
         b.model = m
         models = [m, m_copy]
+    elif case.get("entry") == "model" and not b.groups:
+        m = lsl.Model(roots)
+        b.model = m
+        models = [m]
     else:
         gb = lsl.GraphBuilder().add(*roots)
         if b.groups:
@@ -335,12 +342,12 @@ def oracle(case):
                 new = copy.deepcopy(m0)
             elif how == "copy_rebuild":
                 nodes, vars_ = m0.copy_nodes_and_vars()
-                new = rebuild(nodes, vars_)
+                new = rebuild(nodes, vars_, case.get("entry", "builder"))
             elif how == "pop_rebuild":
                 nodes, vars_ = m0.pop_nodes_and_vars()
                 require(len(m0.nodes) == 0 and len(m0.vars) == 0, "pop-left-members-in-model", det)
                 require(all(n.model is None for n in nodes.values()), "pop-left-model-reference", det)
-                new = rebuild(nodes, vars_)
+                new = rebuild(nodes, vars_, case.get("entry", "builder"))
                 models[0] = new
                 b.model = new
             else:
